@@ -617,6 +617,11 @@ func init() {
 			return Str{Atom: mkApp(strSort, "uf_uuidstr", hi, lo)}
 		},
 
+		"github.com/aptpod/iscp-go/log.genTrackID": func(r *Run, c *frame, fn *ssa.Function, a []Value) Value { return r.freshStr("trackid") },
+		"github.com/aptpod/iscp-go/internal/retry.nextSleep": func(r *Run, c *frame, fn *ssa.Function, a []Value) Value {
+			return mkBV(64, 100_000_000) // timing helper havoc'd to a fixed 100ms back-off
+		},
+
 		// ---- reflect
 		"reflect.TypeOf": func(r *Run, c *frame, fn *ssa.Function, a []Value) Value {
 			iv := a[0].(Iface)
